@@ -54,3 +54,42 @@ Theorem C18_check_is_source : forall c b,
 Proof. exact callback_check_is_source. Qed.
 
 Print Assumptions C18_check_is_source.
+
+(* THE TIE BY TRANSLATION, continued.  (1) The scan over the callbacks in handleCallbacks, as the
+   source has it on this run: for EVERY list of check outcomes it reports the FIRST callback in
+   list order whose check holds, none when no check holds — and so does the model's first_firing.
+   (2) executeCallback as the source has it: its decision table (all 128 combinations of once /
+   already run / has a function / the function fails / complete / reset-output / has a next-timeout,
+   evaluated) is [xc_expected]: a once-callback that has run ends the operation with the operation
+   error without running; otherwise it is marked and run, then the operation ends with the whole
+   dialogue (complete) or the scan goes on with the accumulated output dropped exactly when
+   reset-output is set and the callback's own next-timeout in force exactly when it has one;
+   [C18_cb_loop_fire] is the model's step with the same tests. *)
+From Scrapli Require Import DecideLoops CallbackSrc.
+Theorem C18_callback_scan_is_source : forall checks, scan_run checks = Some (first_true checks 0).
+Proof. exact callback_scan_is_source. Qed.
+
+Theorem C18_first_firing_first_true : forall cbs b i,
+  option_map fst (first_firing cbs b i) = first_true (map (fun c => cb_check c b) cbs) i.
+Proof. exact first_firing_first_true. Qed.
+
+Theorem C18_execute_callback_is_source : xc_table_ok = true.
+Proof. exact execute_callback_is_source. Qed.
+
+Theorem C18_cb_loop_fire : forall f cfg cbs b fb fired i c,
+  first_firing cbs b 0 = Some (i, c) ->
+  cb_loop (S f) cfg cbs b fb fired
+  = if cb_once c && existsb (Nat.eqb i) fired then Fail EOperation
+    else Note TAG_CB (print_dec (N.of_nat i) ++ [58%N] ++ b)
+           ((match cb_answer c with
+             | Some a => fun k => Write a false (Write (c_ret cfg) false k)
+             | None => fun k => k
+             end)
+              (if cb_complete c then Ret fb
+               else cb_loop f cfg cbs (if cb_reset c then [] else b) fb (if cb_once c then i :: fired else fired))).
+Proof. exact cb_loop_fire. Qed.
+
+Print Assumptions C18_callback_scan_is_source.
+Print Assumptions C18_first_firing_first_true.
+Print Assumptions C18_execute_callback_is_source.
+Print Assumptions C18_cb_loop_fire.
